@@ -5,6 +5,8 @@ import Proofs.DkgRounds
 import Proofs.DkgJoint
 import Proofs.DkgShare
 import Proofs.DkgAgree
+import Proofs.DkgNonzero
+import Driver.Dkg
 
 /-! # C07 — DKG: honest participants agree on the verdict and on consistent keys
 
@@ -202,6 +204,42 @@ theorem honest_receivers_agree (size threshold dealer ma mb : Nat) (hd : dealer 
   agreement size threshold dealer ma mb hd hs hma hmb hmad hmbd hab ra1 ra2 ra3 rb1 rb2 rb3 ba1 ba2 ba3 bb1 bb2 bb3 n1 n2 n3
 
 open Proofs.DkgCommute Proofs.DkgAgree in
+/-- **agreement on what `End` returns**: under the same hypotheses, and with scalars read from the wire never zero
+    (`ReadsNonzero`, true of the BLS12-381 instance: `reads_nonzero_bls`), either both honest participants get a
+    DKG failure, or both get keys with the same group public key and the same vector of public key shares, each with
+    a non-zero private share (which `keys_match_public_data` shows to match its public share) -/
+theorem honest_receivers_same_end (hr : ReadsNonzero O) (size threshold dealer ma mb : Nat) (hd : dealer < size)
+    (hs : size ≤ 256) (hma : ma < size) (hmb : mb < size) (hmad : ma ≠ dealer) (hmbd : mb ≠ dealer) (hab : ma ≠ mb)
+    (ra1 ra2 ra3 rb1 rb2 rb3 : List Dl)
+    (ba1 : ∀ e ∈ ra1, e.sender < size) (ba2 : ∀ e ∈ ra2, e.sender < size) (ba3 : ∀ e ∈ ra3, e.sender < size)
+    (bb1 : ∀ e ∈ rb1, e.sender < size) (bb2 : ∀ e ∈ rb2, e.sender < size) (bb3 : ∀ e ∈ rb3, e.sender < size)
+    (n1 : Net ma mb ra1 rb1 (bR1 (fresh O size threshold ma dealer) ra1) (bR1 (fresh O size threshold mb dealer) rb1))
+    (n2 : Net ma mb ra2 rb2 (bR2 (fresh O size threshold ma dealer) ra1 ra2) (bR2 (fresh O size threshold mb dealer) rb1 rb2))
+    (n3 : Net ma mb ra3 rb3 (bR3 (fresh O size threshold ma dealer) ra1 ra2 ra3)
+      (bR3 (fresh O size threshold mb dealer) rb1 rb2 rb3)) :
+    (exec (fresh O size threshold ma dealer) ra1 ra2 ra3 = .failure ∧
+      exec (fresh O size threshold mb dealer) rb1 rb2 rb3 = .failure) ∨
+    (∃ Y ys xa xb, xa ≠ 0 ∧ xb ≠ 0 ∧ exec (fresh O size threshold ma dealer) ra1 ra2 ra3 = .keys xa Y ys ∧
+      exec (fresh O size threshold mb dealer) rb1 rb2 rb3 = .keys xb Y ys) :=
+  agreement_end hr size threshold dealer ma mb hd hs hma hmb hmad hmbd hab ra1 ra2 ra3 rb1 rb2 rb3
+    ba1 ba2 ba3 bb1 bb2 bb3 n1 n2 n3
+
+open Proofs.DkgAgree in
+/-- the BLS12-381 instance the driver runs against the implementation never reads a zero scalar from the wire -/
+theorem reads_nonzero_bls : ReadsNonzero Driver.Dkg.blsOps := by
+  intro b n h
+  have h' : (match Bls.readFrStar b with | .ok x => some x | .error _ => none) = some n := h
+  unfold Bls.readFrStar at h'
+  cases hrd : Bls.readFr b with
+  | error e => rw [hrd] at h'; cases h'
+  | ok x =>
+    rw [hrd] at h'
+    simp only [] at h'
+    by_cases hx : x = 0
+    · rw [if_pos hx] at h'; cases h'
+    · rw [if_neg hx] at h'; cases h'; exact hx
+
+open Proofs.DkgCommute Proofs.DkgAgree in
 /-- the public result is what `End` returns: a failure, or the public result together with the private share -/
 theorem end_result_is_public_result (s : St O) : endRes s =
     match pubRes s with
@@ -314,3 +352,5 @@ end Props.C07
 #print axioms Props.C07.end_result_is_public_result
 #print axioms Props.C07.broadcasts_are_the_complaint
 #print axioms Props.C07.shadow_simulation
+#print axioms Props.C07.honest_receivers_same_end
+#print axioms Props.C07.reads_nonzero_bls
